@@ -288,8 +288,8 @@ func runCase(c Case) (rep Report) {
 	var out ev.Outcome
 	select {
 	case out = <-done:
-	case <-time.After(120 * time.Second):
-		rep.Msg = "DEADLINE: the program did not finish within 120 s"
+	case <-time.After(60 * time.Second):
+		rep.Msg = "DEADLINE: the program did not finish within 60 s"
 		return
 	}
 	rep.Overlap = int(maxAct.Load())
@@ -477,7 +477,8 @@ func loadKnown() {
 
 func isKnown(sig string) bool {
 	for _, k := range known {
-		if k.Sig == sig {
+		// race_signature is a regular expression over "frameA <-> frameB" (the innermost slip frames, sorted)
+		if rx, err := regexp.Compile(k.Sig); err == nil && rx.MatchString(sig) {
 			knownMu.Lock()
 			knownSeen[k.ID]++
 			knownMu.Unlock()
@@ -605,7 +606,7 @@ func TestC17(t *testing.T) {
 		"Schedules are sampled by the Go scheduler under the race detector, not enumerated.")
 	h.Assume("the Go race detector reports only real races; a schedule that was not hit is not covered")
 	loadKnown()
-	h.RunProp(t, conc, h.N(120, 1200))
+	h.RunProp(t, conc, h.N(80, 800))
 	for _, k := range known {
 		line := fmt.Sprintf("KNOWN-FINDING: property=C17 %s %s (race signature %s; observed in %d runs of this check)", k.ID, k.What, k.Sig, knownSeen[k.ID])
 		fmt.Println(line)
